@@ -290,6 +290,8 @@ type Fs struct {
 	Entries []*Entry
 	L       *Ledger
 	Faults  bool
+	// LastResultOK is the outcome of the last Mkdir/Remove/Rename
+	LastResultOK bool
 	// Guard, when set, is called with the path of every operation before anything else.
 	Guard func(op, path string)
 	// Missing decides what happens for paths that are not listed: nil = not exist
@@ -332,7 +334,10 @@ func (s *Fs) open(op, name string, flag int) (afero.File, error) {
 	}
 	e := s.find(name)
 	var tmpl *File
-	if e == nil || e.Gone {
+	if (e == nil || e.Gone) && flag&os.O_CREATE != 0 && s.Missing == nil {
+		// created by this open
+		tmpl = &File{Label: "created", Faults: s.Faults}
+	} else if e == nil || e.Gone {
 		if s.Missing == nil {
 			return nil, os.ErrNotExist
 		}
@@ -386,7 +391,8 @@ func (s *Fs) Stat(name string) (os.FileInfo, error) {
 }
 
 func (s *Fs) result(op string) error {
-	if verifrt.Bool("fsresult." + op) {
+	s.LastResultOK = verifrt.Bool("fsresult." + op)
+	if s.LastResultOK {
 		return nil
 	}
 	return ErrIO
